@@ -470,7 +470,13 @@ where
     let res_log_delta = a.log_delta().min(b.log_delta());
 
     let res_offset = (res_log_budget + res_log_delta).saturating_sub(res.max_k().as_usize());
-    let cnv_offset = a.effective_k().max(b.effective_k()) + res_offset;
+    // The product of the two torus values sits at 2^-(a.log_budget + b.log_budget) and the result is declared at
+    // log_budget = min(log_budget) - max(log_delta): the shift that makes the data agree with that metadata is
+    // max(log_budget) + max(log_delta). The previous expression, max(effective_k), equals it whenever the operand
+    // with the larger log_budget also has the larger log_delta (in particular for equal log_delta); otherwise it
+    // is smaller by up to |a.log_delta - b.log_delta| bits and the result decrypts to the product divided by
+    // that power of two.
+    let cnv_offset = a.log_budget().max(b.log_budget()) + a.log_delta().max(b.log_delta()) + res_offset;
 
     Ok((
         checked_log_budget_sub("mul", res_log_budget, res_offset)?,
